@@ -7,7 +7,7 @@
 From Coq Require Import List String ZArith NArith Bool.
 Import ListNotations.
 From DV Require Import Model.Tree Model.Tables Model.Skeleton Model.FragSkel Model.Values Model.Link Model.Fragment Model.Decorate Model.Restore
-     Proofs.LinkProofs Proofs.LinkPanic Proofs.LinkLocal Proofs.FragProofs Proofs.RestoreProofs
+     Proofs.LinkProofs Proofs.LinkPanic Proofs.LinkLocal Proofs.LinkOrder Proofs.FragProofs Proofs.RestoreProofs
      Gen.Universe Gen.DataTbl Gen.FragTbl Gen.RestTbl Gen.DecTbl.
 Local Open Scope string_scope.
 Local Open Scope list_scope.
@@ -83,6 +83,18 @@ Theorem C03_no_comment_crosses_a_token :
   forall c d ind j, nth_error (l_frags (link fs)) c = Some (FCom d ind (Some j)) -> adjacent (l_frags (link fs)) c j.
 Proof. exact link_attaches_locally. Qed.
 
+(* Comments are stored in order: for every fragment list in which no comment is attached yet and
+   any two comments c1 < c2 that link attaches to the decoration fragments j1 and j2, j1 <= j2.
+   With the locality theorem above: within a run of comments between two decoration points, a
+   prefix goes to the point on the left and the rest to the point on the right -- nothing is
+   reordered across points.  (Within one point the order, and exactly-once, are validated on
+   every fragment list of the run: mismatch_order.) *)
+Theorem C03_comments_are_attached_in_order :
+  forall fs,
+  (forall c d ind a, nth_error fs c = Some (FCom d ind a) -> a = None) ->
+  forall c1 c2 j1 j2, (c1 < c2)%nat -> att (link fs) c1 j1 -> att (link fs) c2 j2 -> (j1 <= j2)%nat.
+Proof. exact link_attaches_in_order. Qed.
+
 (* link does not panic when every comment and newline fragment lies in a token-delimited
    segment that holds a decoration fragment (seg_ok is evaluated on every fragment list of the
    correspondence: mismatch_seg). *)
@@ -139,6 +151,7 @@ Print Assumptions C03_every_node_bracketed_by_points.
 Print Assumptions C03_every_comment_attached.
 Print Assumptions C03_every_comment_kept.
 Print Assumptions C03_no_comment_crosses_a_token.
+Print Assumptions C03_comments_are_attached_in_order.
 Print Assumptions C03_link_does_not_panic.
 Print Assumptions C03_sort_keeps_every_fragment.
 Print Assumptions C03_decorate_keeps_every_comment.
